@@ -23,7 +23,7 @@ PROP = "C18"
 
 EVIDENCE = {
     "rule": "one evaluation = one simulated operation sequence (evaluate / extract / evaluate with seeded ARPACK start vectors, optional solver fault, optional rigidly moved twin) on one generated model; non-trivial = at least one eigen-solve returned pairs that were checked; distinct = distinct (mesh family, field kind, material, boundary kind, requested modes, operation sequence, start-vector seeds)",
-    "probes_expected": ["eigenpairs-checked", "start-vectors-compared", "dense-reference-compared", "mode-shape-checked", "rigid-modes-counted", "rigid-twin-compared", "fault:eigsh", "inplace-extract-then-evaluate", "mixed-container", "operator-checked"],
+    "probes_expected": ["eigenpairs-checked", "start-vectors-compared", "dense-reference-compared", "mode-shape-checked", "rigid-modes-counted", "rigid-twin-compared", "fault:eigsh", "inplace-extract-then-evaluate", "mixed-container", "operator-checked", "density-changed-between-evaluations"],
     "components": {
         "real": ["felupe FreeVibration / SolidBody / assembly / dof.partition", "scipy ARPACK (eigsh, shift-invert with SuperLU)"],
         "simulated": ["ARPACK start vector (seeded, instead of OS entropy)", "eigen-solver fault layer", "operation history on the shared field"],
@@ -78,7 +78,10 @@ def generate(seed, tier, k):
     ops = []
     nops = r.choice([2, 3, 4, 5])
     for i in range(nops):
-        if i == 0 or r.random() < 0.6:
+        if i > 0 and r.random() < 0.15:
+            # parameter study on the same analysis object: the density of an item is changed
+            ops.append({"op": "density", "item": r.randrange(len(doc["items"])), "factor": r.choice([0.25, 2.0, 4.0])})
+        elif i == 0 or r.random() < 0.6:
             ops.append({"op": "evaluate", "k": r.choice([1, 2, 3, 6, 6, 8, 10]), "v0_seed": r.randrange(1 << 30), "ncv": r.choice([None, None, 20, 30]), "parallel": False})
         else:
             ops.append({"op": "extract", "n": r.choice([0, 0, 1, -1, 2]), "inplace": r.random() < 0.5})
@@ -181,6 +184,7 @@ def check_pairs(doc, log, rec, vals, vecs, K11, M11, site):
 
 
 def run(doc, log):
+    doc0 = doc
     w = build(doc)
     job = fem.FreeVibration(w.items, w.boundaries)
     sim = SimEigsh(log, doc.get("fault"))
@@ -280,9 +284,16 @@ def run(doc, log):
                     raise Violation(PROP, "rigid-modes", f"unconstrained body has {nrig} zero-frequency modes among the {nk} returned, expected {want} (|lambda| <= 1e-8 lambda_max)", site=f"FreeVibration.evaluate[{cls}]")
                 log.count("rigid-modes-counted")
             regular_first = regular_first if spectra else (not mass_singular and not k_singular)
-            spectra.append((k, np.sort(vals), nk, adigest(np.concatenate([f.values.ravel() for f in w.field.fields])), cls))
+            spectra.append((k, np.sort(vals), nk, adigest(np.concatenate([f.values.ravel() for f in w.field.fields] + [np.array([i["density"] for i in doc["items"]])])), cls))
             evaluated = True
             sig.append(f"E{nk}")
+        elif op["op"] == "density":
+            kitem = op["item"]
+            doc = copy.deepcopy(doc) if doc is doc0 else doc
+            doc["items"][kitem]["density"] = doc["items"][kitem]["density"] * op["factor"]
+            w.items[kitem].density = doc["items"][kitem]["density"]
+            log.count("density-changed-between-evaluations")
+            sig.append("D")
         else:
             if not evaluated or job.eigenvectors is None:
                 continue
@@ -328,7 +339,7 @@ def run(doc, log):
                 log.count("start-vectors-compared")
     # rigid motion twin -----------------------------------------------------------------------------
     if doc.get("twin") and spectra and spectra[0][0] == 0 and regular_first:
-        w2 = build(doc, rigid=doc["rigid"])
+        w2 = build(doc0, rigid=doc0["rigid"])
         # boundaries by the same point sets (coordinates moved), all components
         b2 = {}
         for name, b in w.boundaries.items():
